@@ -267,9 +267,11 @@ def apply_op(bt, root, op):
     kind = op["op"]
     try:
         if kind == "setattr":
-            setattr(navigate(root, op["nav"]), op["key"], dec(op["value"], bt.tmp))
+            setattr(navigate(root, op["nav"]), op["key"], _held(root, dec(op["value"], bt.tmp)))
         elif kind == "setitem":
-            root[op["path"]] = dec(op["value"], bt.tmp)
+            root[op["path"]] = _held(root, dec(op["value"], bt.tmp))
+        elif kind == "reset":
+            bt.cc.reset_value(navigate(root, op["nav"]), op["key"])
         elif kind == "ctor":
             target = bt.objs[op["ref"]] if op.get("ref") else bt.schema
             target(**dec(op["kw"], bt.tmp))
@@ -281,9 +283,15 @@ def apply_op(bt, root, op):
                 for k, v in val["$newitem"].items():
                     setattr(item, k, dec(v, bt.tmp))
                 val = item
+            elif isinstance(val, dict) and "$held" in val:
+                val = lst[val["$held"]]  # the very object the list already holds
+            elif isinstance(val, dict) and "$stash" in val:
+                val = bt.stash  # the object popped from the list earlier in the history
             else:
                 val = dec(val, bt.tmp)
-            if op["meth"] == "append":
+            if op["meth"] == "pop":
+                bt.stash = lst.pop(op["index"])
+            elif op["meth"] == "append":
                 lst.append(val)
             elif op["meth"] == "insert":
                 lst.insert(op["index"], val)
@@ -330,6 +338,17 @@ def apply_op(bt, root, op):
     except Exception as exc:  # pylint: disable=broad-except
         return exc
     return None
+
+
+def _held(root, value):
+    """replace {"$heldnav": nav} markers by the object found at nav in the live tree (an item a list already holds)"""
+    if isinstance(value, dict):
+        if len(value) == 1 and "$heldnav" in value:
+            return navigate(root, value["$heldnav"])
+        return {k: _held(root, v) for k, v in value.items()}
+    if isinstance(value, list):
+        return [_held(root, v) for v in value]
+    return value
 
 
 def _content(bt, fmt, doc):
@@ -386,6 +405,12 @@ HOST = {"t": "ctype", "name": "Host", "schema": {
     "t": "schema", "good": [{"h": "example.com", "p": 81}, {"h": "1.2.3.4"}],
     "fields": [["h", {"t": "hostname", "required": True, "default": _c("localhost")}],
                ["p", {"t": "port", "default": _c(80)}]]}}
+
+PAIR = {"t": "schema", "validators": ["x<=y"], "invalid_fresh": True,
+        "good": [{"name": "n1"}, {"name": "n2", "x": 0, "y": 5}],
+        "fields": [["x", {"t": "int", "min": 0, "max": 99, "default": _c(1)}],
+                   ["y", {"t": "int", "min": 0, "max": 99, "default": _c(2)}],
+                   ["name", {"t": "string", "required": True, "max_len": 3}]]}
 
 SPECS = [
     ("scalars", {
@@ -452,6 +477,19 @@ SPECS = [
         "tree": {"li": [3], "ls": ["x", "y"], "lnone": [5], "ll": [[0]], "lsch": [{"n": 4, "name": "d"}],
                  "lsch2": [{"n": 5, "name": "e", "tags": ["u"], "sub": {"z": 2}}], "lct": [{"h": "i.example", "p": 9}],
                  "box": {"inner": [{"n": 6, "name": "f"}]}}}),
+    ("held-items", {
+        "defs": {"Pair": PAIR, "PairT": {"t": "ctype", "name": "PairT", "schema": PAIR}},
+        "root": {"t": "schema", "fields": [
+            ["n", {"t": "int", "max": 9, "default": _c(1)}],
+            ["pairs", {"t": "list", "item": {"t": "ref", "name": "Pair"},
+                       "default": _c([{"name": "a"}, {"name": "b", "x": 0}, {"name": "c"}])}],
+            ["tpairs", {"t": "list", "item": {"t": "ref", "name": "PairT"}, "default": _c([{"name": "d"}, {"name": "e"}])}],
+            ["box", {"t": "schema", "fields": [
+                ["inner", {"t": "list", "item": {"t": "ref", "name": "Pair"},
+                           "default": {"fresh": [{"name": "f"}, {"name": "g", "y": 9}]}}]]}]]},
+        "held": [["pairs"], ["tpairs"], ["box", "inner"]],
+        "tree": {"n": 2, "pairs": [{"name": "p", "x": 1, "y": 1}, {"name": "q"}], "tpairs": [{"name": "r"}, {"name": "s"}, {"name": "t"}],
+                 "box": {"inner": [{"name": "u"}, {"name": "v"}]}}}),
     ("dicts", {
         "root": {"t": "schema", "fields": [
             ["d", {"t": "dict", "kf": {"t": "string", "max_len": 2}, "vf": {"t": "int", "min": 0},
@@ -576,7 +614,15 @@ def failing_ops(bt, top, root):
         elif t == "list" and "item" in fs:
             bads = pools(fs)[1]
             igood, ibad = item_pools(bt, fs["item"])
-            bads += [("item:" + lab, igood[:1] + [v]) for lab, v in ibad if not (isinstance(v, dict) and "$newitem" in v)]
+            plain_bad = [(lab, v) for lab, v in ibad if not (isinstance(v, dict) and "$newitem" in v)]
+            bads += [("item:" + lab, igood[:1] + [v]) for lab, v in plain_bad]
+            if igood:
+                # whole-container assignment over a list that already holds items: only a LATER element is invalid
+                bads += [("whole-last-of-3:" + lab, [igood[0], igood[-1], v]) for lab, v in plain_bad[:3]]
+                bads += [("whole-tuple:" + lab, (igood[0], v)) for lab, v in plain_bad[:2]]
+                if isinstance(val, list) and len(val) >= 2 and bt.resolve(fs["item"])["t"] in ("schema", "ctype"):
+                    bads += [("whole-held-then-bad:" + lab, [{"$heldnav": nav + [key, 1]}, {"$heldnav": nav + [key, 0]}, v])
+                             for lab, v in plain_bad[:2]]
             tname = "list<%s>" % bt.resolve(fs["item"])["t"]
         elif t == "dict" and ("kf" in fs or "vf" in fs):
             bads = pools(fs)[1]
@@ -586,6 +632,9 @@ def failing_ops(bt, top, root):
                      for lab, v in vb[:4] if vg]
             bads += [("key:" + lab, {kg[0]: vg[0], k: vg[0]}) for lab, k in kb[:4]
                      if vg and not isinstance(k, (list, dict)) and k is not _OBJ]
+            if vg and len(kg) >= 2:
+                bads += [("whole-last-of-3:value:" + lab, {kg[0]: vg[0], kg[1]: vg[-1], "zz" if not isinstance(kg[0], int) else 77: v})
+                         for lab, v in vb[:3]]
             tname = "dict<typed>"
         else:
             bads = pools(fs)[1]
@@ -601,7 +650,8 @@ def failing_ops(bt, top, root):
                     kw = {sib[0]: sib[1], key: bad}
                 for step in reversed(nav):
                     kw = {step: kw}
-                yield ob_ctor, "ctor:" + wk, {"op": "ctor", "kw": enc(kw)}
+                if "$heldnav" not in json.dumps(enc(kw), default=str):
+                    yield ob_ctor, "ctor:" + wk, {"op": "ctor", "kw": enc(kw)}
                 if nav:
                     # bad map assigned to the enclosing sub-configuration, accepted sibling value first
                     inner = {sib[0]: sib[1], key: bad} if sib else {key: bad}
@@ -670,6 +720,51 @@ def _list_ops(bt, fs, lst, nav):
         for idx in range(min(len(lst), 2)):
             if hasattr(lst[idx], "item_field"):
                 yield from (("%s" % ob, "nested-" + wk, op) for ob, wk, op in _list_ops(bt, ispec, lst[idx], nav + [idx]))
+
+
+def held_cases(bt, top):
+    """(state name, setup, obligation, witness_key, op): rejected single-element insertion / replacement whose element
+    is an item object the list ALREADY holds and that has meanwhile become invalid as a whole"""
+    ob = "fields.list_field:ListProxy.%s/raise:C06.state-unchanged"
+    bases = [("defaults", [])]
+    if top.get("tree"):
+        bases.append(("load_tree", [{"op": "load_tree", "tree": top["tree"]}]))
+    for bname, base in bases:
+        probe = bt.schema()
+        for sop in base:
+            if apply_op(bt, probe, sop) is not None:
+                raise AssertionError("driver bug: held base setup failed")
+        for nav in top.get("held", []):
+            size = len(navigate(probe, nav))
+            for mode, mk in (("validator", lambda j: {"op": "setattr", "nav": nav + [j], "key": "x", "value": 50}),
+                             ("required-reset", lambda j: {"op": "reset", "nav": nav + [j], "key": "name"})):
+                for j in sorted({0, size - 1}):
+                    setup = base + [mk(j)]
+                    sname = "%s+invalidated[%s,%d]:%s" % (bname, ".".join(nav), j, mode)
+                    held = {"$held": j}
+                    yield sname, setup, ob % "append", "list.append:held-item:" + mode, {
+                        "op": "list", "nav": nav, "meth": "append", "value": held}
+                    for idx in sorted({0, size}):
+                        yield sname, setup, ob % "insert", "list.insert:held-item:" + mode, {
+                            "op": "list", "nav": nav, "meth": "insert", "index": idx, "value": held}
+                    for idx in range(size):
+                        yield sname, setup, ob % "__setitem__", "list.setitem:held-item:%s:%s" % (
+                            mode, "same-slot" if idx == j else "other-slot"), {
+                            "op": "list", "nav": nav, "meth": "setitem", "index": idx, "value": held}
+                    other = (j + 1) % size
+                    yield sname, setup, "core:Config._set_value/raise:C06.state-unchanged", "setattr:list<held>:later-held-item:" + mode, {
+                        "op": "setattr", "nav": nav[:-1], "key": nav[-1],
+                        "value": [{"$heldnav": nav + [other]}, {"$heldnav": nav + [j]}]}
+                    # pop the invalidated item, then try to put it back: the list must stay as it was after the pop
+                    setup2 = setup + [{"op": "list", "nav": nav, "meth": "pop", "index": j, "value": None}]
+                    sname2 = sname + "+popped"
+                    stash = {"$stash": 1}
+                    yield sname2, setup2, ob % "append", "list.append:popped-item:" + mode, {
+                        "op": "list", "nav": nav, "meth": "append", "value": stash}
+                    yield sname2, setup2, ob % "insert", "list.insert:popped-item:" + mode, {
+                        "op": "list", "nav": nav, "meth": "insert", "index": 0, "value": stash}
+                    yield sname2, setup2, ob % "__setitem__", "list.setitem:popped-item:" + mode, {
+                        "op": "list", "nav": nav, "meth": "setitem", "index": 0, "value": stash}
 
 
 def load_ops(bt, top):
@@ -816,10 +911,12 @@ def _replay_dict(name, top, setup, op, scope):
 def rac(tier, seed):
     rec = Recorder(
         PID,
-        rule="fixed schema grammar (7 schemas: every scalar field class with boundary options, nested depth 3 with "
+        rule="fixed schema grammar (8 schemas: every scalar field class with boundary options, nested depth 3 with "
              "schema validators, config types, typed/untyped/nested lists incl. lists of Schema/ConfigType, typed "
-             "dicts, dynamic schemas, include fields) x prior states (defaults | accepted assignments | load_tree | "
-             "loads + in-place appends) x every candidate failing operation derived from the field options; a case is "
+             "dicts, dynamic schemas, include fields, lists of items with a cross-field validator) x prior states (defaults | accepted assignments | load_tree | "
+             "loads + in-place appends) x every candidate failing operation derived from the field options; plus held-item cases (an item the list already holds is "
+             "invalidated via a cross-field validator or a required field reset to None, then re-appended / inserted / "
+             "assigned to a slot / popped and put back / passed in a whole-list assignment); a case is "
              "non-trivial iff the real operation raised in one of the listed ways; distinct = (schema, state, witness "
              "class, op)",
         bound="depth <= 3 (+ list items), <= 2 items per list explored, value pools: min-1/max+1/len+-1/wrong type/"
@@ -850,6 +947,15 @@ def rac(tier, seed):
                     if status == "fail":
                         rec.violation(obligation=ob, what=detail, witness_key=wk,
                                       replay=_replay_dict(name, top, setup, op, scope))
+            for sname, setup, ob, wk, op in held_cases(bt0, top):
+                n += 1
+                status, detail = check(top, setup, op, "assign", sub, populate=False)
+                rec.case(key=(name, sname, wk, json.dumps(op, sort_keys=True)[:160]), nontrivial=status != "skip",
+                         sample={"schema": name, "state": sname, "witness": wk, "op": op, "result": status}
+                         if op.get("meth") == "append" and "popped" in sname and "pairs" in sname else None)
+                if status == "fail":
+                    rec.violation(obligation=ob, what="[%s] %s" % (sname, detail), witness_key=wk,
+                                  replay=_replay_dict(name, top, setup, op, "assign"))
         if tier != "quick":
             _thorough(rec, tmp)
     return rec.result(exhaustive=False)
